@@ -177,6 +177,10 @@ def check_problem(pb, rec, info, wbase, b, res, rng, explicit_env=False):
     neg_taut = _negative_bool_tautologies(pb) if info.get("rewrite") else []
     if neg_taut:
         res.count("text:bool-assignment-simplifying-to-false")
+    # a user type called `object` in a flat typing with other types is written as PDDL's root type `object`
+    type_object = len(pb.user_types) > 1 and not pb.kind.has_hierarchical_typing() and any(t.name.lower() == "object" for t in pb.user_types)
+    if type_object:
+        res.count("text:user-type-named-object")
     import re as _re
 
     constant_metric = bool(_re.search(r"\(:metric\s+(minimize|maximize)\s+[-0-9.]+\s*\)", prob))
@@ -214,6 +218,8 @@ def check_problem(pb, rec, info, wbase, b, res, rng, explicit_env=False):
                 # `(:metric maximize 0)` (the metric expression simplifies to a constant): legal PDDL the UP reader's grammar
                 # (metric ::= name | nested expression) cannot parse
                 mech = "reader-raises:up:constant-metric"
+            elif type_object and isinstance(ex, KeyError) and "object" in str(ex):
+                mech = "writer:user-type-named-object"
             elif which == "up" and pddl3:
                 # the writer left a PDDL3 modal-operator word (always, sometime, ...) unmangled (it only reserves them for
                 # problems with trajectory constraints) and the UP reader parses `(sometime ...)` as the operator
@@ -256,6 +262,8 @@ def check_problem(pb, rec, info, wbase, b, res, rng, explicit_env=False):
                 # root cause in the writer (both readers read what was written): `f := <expression that simplifies to false>`
                 # is rewritten to the positive literal
                 mech = "writer:bool-assignment-simplifying-to-false-written-positive"
+            elif type_object and m.mechanism in ("type-extension", "parameter-domain", "object-extra", "object-missing"):
+                mech = "writer:user-type-named-object"
             elif which == "ai" and any(v[2] == "num" and io_rt.inexact_binary(v[1]) for v in diff.values()):
                 mech = "ai:inexact-decimal-constant"
             elif third_party and not m.mechanism.startswith("initial-state"):
@@ -366,7 +374,7 @@ def check_plans(pb, pb2, writer, reader, corr, which, b, rng, res, viol, dom, pr
             # (1) back onto the original problem through the writer's inverse renaming
             back = io_rt.call(reader.parse_plan_string, pb, text, writer.get_item_named)
             if not back.ok:
-                viol(f"parse_plan-raises:{which}:{io_rt.exc_class(back.exc)}", f"parse_plan_string(original, text, get_item_named) raised {back.exc!r}", plan_text=text)
+                viol(f"parse_plan-raises:{which}:{type(back.exc).__name__}", f"parse_plan_string(original, text, get_item_named) raised {back.exc!r}", plan_text=text)
                 return
             got = [(ai.action.name, tuple(str(p) for p in ai.actual_parameters)) for ai in back.value.actions]
             exp = [(a.name, tuple(map(str, x))) for a, x in steps]
@@ -377,7 +385,7 @@ def check_plans(pb, pb2, writer, reader, corr, which, b, rng, res, viol, dom, pr
             # (2) onto the re-read problem by name; validity must agree
             fwd = io_rt.call(reader.parse_plan_string, pb2, text)
             if not fwd.ok:
-                viol(f"parse_plan-raises:{which}:reread:{io_rt.exc_class(fwd.exc)}", f"parse_plan_string(re-read problem, text) raised {fwd.exc!r}", plan_text=text, domain=dom, problem=prob)
+                viol(f"parse_plan-raises:{which}:reread:{type(fwd.exc).__name__}", f"parse_plan_string(re-read problem, text) raised {fwd.exc!r}", plan_text=text, domain=dom, problem=prob)
                 return
             steps2 = []
             for ai in fwd.value.actions:
@@ -416,7 +424,7 @@ def check_plans(pb, pb2, writer, reader, corr, which, b, rng, res, viol, dom, pr
                 return
             back = io_rt.call(reader.parse_plan_string, pb, out.value, writer.get_item_named)
             if not back.ok:
-                viol(f"parse_plan-raises:{which}:{io_rt.exc_class(back.exc)}", f"parse_plan_string raised {back.exc!r}", plan_text=out.value)
+                viol(f"parse_plan-raises:{which}:{type(back.exc).__name__}", f"parse_plan_string raised {back.exc!r}", plan_text=out.value)
                 return
             got = [(str(s), ai.action.name, tuple(map(str, ai.actual_parameters)), str(d)) for s, ai, d in back.value.timed_actions]
             exp = [(str(s), ai.action.name, tuple(map(str, ai.actual_parameters)), str(d)) for s, ai, d in tt]
@@ -444,6 +452,10 @@ def run_examples(tier, res, only=None):
             if pb.kind.has_simulated_effects() or pb.kind.has_state_invariants() or any(getattr(a, "continuous_effects", None) for a in pb.actions if hasattr(a, "continuous_effects")):
                 continue
             if len(pb.processes) or len(pb.events):
+                continue
+            if any("INTERPRETED_FUNCTIONS" in f for f in pb.kind.features) or any(m.is_oversubscription() or m.is_temporal_oversubscription() for m in pb.quality_metrics):
+                # not expressible in PDDL (the writer answers with NotImplementedError): outside the statement's fragment
+                res.count("examples_skipped_outside_pddl_fragment")
                 continue
             bounded = any((f.type.is_int_type() or f.type.is_real_type()) and (f.type.lower_bound is not None or f.type.upper_bound is not None) for f in pb.fluents)
             if bounded:
